@@ -45,8 +45,8 @@ type Transfer struct {
 // SkyWorld is a bootstrapped bridge with tokens, users and the per-denom ledger model.
 type SkyWorld struct {
 	*Bridge
-	Gov    *Gov
-	Tokens []*Token
+	Gov      *Gov
+	Tokens   []*Token
 	EvmUsers []*world.EthKey
 
 	// model
@@ -68,9 +68,10 @@ type SkyWorld struct {
 	// deposits the model saw emitted on the remote chain: chain/nonce -> event
 	FaultThisBlock bool
 	// FaultMethod is the collaborator method in which an injected fault fired in this block ("" if none)
-	FaultMethod string
-	forget      bool
-	prop        string
+	FaultMethod      string
+	forget           bool
+	taxSet, limitSet bool
+	prop             string
 }
 
 type skyOp struct {
@@ -586,3 +587,87 @@ func nz(v math.Int) math.Int {
 }
 
 func palomaReceiver(a sdk.AccAddress) [32]byte { return pad32(a.Bytes()) }
+
+// RandomClientOps issues a seeded mix of sends, cancels and remote deposits.
+func (w *SkyWorld) RandomClientOps() {
+	t := w.T
+	r := w.R
+	nOps := t.Intn(4)
+	for j := 0; j < nOps; j++ {
+		u := w.Users[t.Intn(len(w.Users))]
+		switch k := t.Draw(10); {
+		case k < 5: // send
+			tok := w.Tokens[t.Intn(len(w.Tokens))]
+			chains := core.SortedKeys(tok.ERC20)
+			chain := chains[t.Intn(len(chains))]
+			var amt math.Int
+			switch t.Draw(6) {
+			case 0:
+				amt = math.NewInt(1)
+			case 1:
+				amt = math.NewIntFromBigInt(new(big.Int).Exp(big.NewInt(10), big.NewInt(int64(20+t.Intn(12))), nil)) // may exceed balance
+			default:
+				amt = math.NewIntFromUint64(1 + t.Uint64()%1_000_000_000_000)
+			}
+			dest := common.BytesToAddress(t.Bytes(20))
+			if t.Draw(20) == 19 {
+				dest = common.Address{} // zero address: must be rejected
+			}
+			w.Send(u, tok.Denom, chain, amt, dest)
+		case k < 7: // cancel
+			ids := sortedTransferIDs(w.Transfers)
+			if len(ids) == 0 {
+				continue
+			}
+			id := ids[t.Intn(len(ids))]
+			if t.Draw(8) == 7 {
+				id += 1000 // nonexistent
+			}
+			who := u
+			if tr := w.Transfers[id]; tr != nil && t.Draw(3) != 0 {
+				for _, cand := range w.Users {
+					if cand.Bech32() == tr.Sender {
+						who = cand // usually the owner cancels
+					}
+				}
+			}
+			w.Cancel(who, id)
+		default: // inbound deposit on the remote chain
+			tok := w.Tokens[t.Intn(len(w.Tokens))]
+			chains := core.SortedKeys(tok.ERC20)
+			chain := chains[t.Intn(len(chains))]
+			token := tok.ERC20[chain]
+			if t.Draw(10) == 9 {
+				token = common.BytesToAddress(t.Bytes(20)) // unregistered ERC-20
+			}
+			var recv [32]byte
+			switch t.Draw(6) {
+			case 0:
+				recv = palomaReceiver(moduleAddr(skywaytypes.ModuleName)) // blocked module account
+			case 1:
+				copy(recv[:], t.Bytes(32)) // garbage
+			default:
+				recv = palomaReceiver(w.Users[t.Intn(len(w.Users))].Addr)
+			}
+			w.Deposit(chain, w.EvmUsers[t.Intn(len(w.EvmUsers))], token, recv, new(big.Int).SetUint64(1+t.Uint64()%1_000_000_000))
+			r.Stats.Probe("deposit_sent")
+		}
+	}
+}
+
+// RandomGovernance occasionally changes bridge tax / transfer limits mid-flight.
+func (w *SkyWorld) RandomGovernance() {
+	t := w.T
+	if !w.Gov.Busy() && t.Chance(1, 40) {
+		tok := w.Tokens[t.Intn(len(w.Tokens))]
+		if !w.taxSet || t.Draw(2) == 0 {
+			rate := []string{"0.01", "1/3", "0", "0.2", "2.5"}[t.Intn(5)]
+			w.Gov.Propose("tax "+rate, nil, Legacy(&skywaytypes.SetBridgeTaxProposal{Title: "tax " + rate, Description: "d", Rate: rate, Token: tok.Denom}))
+			w.taxSet = true
+		} else if !w.limitSet {
+			w.Gov.Propose("limit", nil, Legacy(&skywaytypes.SetBridgeTransferLimitProposal{Title: "limit", Description: "d", Token: tok.Denom,
+				Limit: math.NewIntFromUint64(1 + t.Uint64()%1_000_000_000_000_000), LimitPeriod: skywaytypes.LimitPeriod_DAILY}))
+			w.limitSet = true
+		}
+	}
+}
